@@ -182,6 +182,8 @@ enum Place {
     SeqElem,
     MapValue,
     Payload,
+    /// the payload of a newtype variant: an `Option` here is not a field that can be left out
+    VariantPayload,
 }
 
 /// `deserialize_struct` / `deserialize_enum` want `&'static` name lists: intern them
@@ -246,7 +248,7 @@ fn gen_enum(rng: &mut Rng, depth: usize) -> Shape {
         .map(|v| {
             let var = match rng.below(4) {
                 0 => Variant::Unit,
-                1 => Variant::Newtype(Box::new(gen_shape_at(rng, depth + 1, Place::Payload))),
+                1 => Variant::Newtype(Box::new(gen_shape_at(rng, depth + 1, Place::VariantPayload))),
                 2 => Variant::Tuple((0..1 + rng.below(3)).map(|_| gen_shape_at(rng, depth + 1, Place::SeqElem)).collect()),
                 _ => Variant::Struct(gen_fields(rng, depth, 0)),
             };
@@ -272,6 +274,7 @@ fn gen_shape_at(rng: &mut Rng, depth: usize, place: Place) -> Shape {
                 _ => Shape::Opt(Box::new(inner)),
             }
         }
+        0 | 1 if place == Place::VariantPayload && rng.chance(1, 2) => Shape::Opt(Box::new(gen_shape_at(rng, depth + 1, Place::Payload))),
         2 if place == Place::SeqElem && rng.chance(1, 6) => {
             // documented errors: None / unit inside a sequence
             match rng.below(3) {
